@@ -190,7 +190,9 @@ let parse_wcmd (toks : string list) : wcmd =
   | ["fsdir"; p; u; g] -> WFs (dec p, NDir (num u, num g))
   | ["sec"; ow; gr; nl] ->
       WSec { sec_owner = (if ow = "-" then None else Some (num ow));
-             sec_group = (if gr = "-" then None else Some (num gr)); sec_nolinks = (nl = "1") }
+             sec_group = (if gr = "-" then None else Some (num gr)); sec_nolinks = (nl = "1"); sec_perms = None }
+  | ["perms"] -> WPerms (n_of_int 0o400, n_of_int 0o100)
+  | ["perms"; fm; dm] -> WPerms (n_of_int (int_of_string ("0o" ^ fm)), n_of_int (int_of_string ("0o" ^ dm)))
   | ["confdirs"; l] -> WConfDirs (dec_olist l)
   | ["cb"; "none"] -> WCallback CbNone
   | ["cb"; "reject"] -> WCallback (CbReject [])
@@ -225,7 +227,6 @@ let () =
         (* harness-only actions that must not change any result: a change of the working directory after the reads of
            the scenario, and a permission requirement every file of the harness satisfies *)
         | ["chdir"; _] -> print_endline "rc=0"
-        | ["perms"] -> print_endline "rc=0"
         | ["tool"; cmd; arg; dl; cm] ->
             let f = (match cmd with "show" -> tool_show | "syntax" -> tool_syntax | _ -> tool_cat) in
             let r = f (!w).w_tree (dec arg) (dec dl) (dec cm) in
